@@ -14,10 +14,10 @@ from verif.reglang.alphabet import MARK, alphabet
 PROPERTY = "C20"
 LEVEL = "other"
 LEVEL_TEXT = "termination of the scanner is proved as a progress contract: the control skeleton of tokenize (checked against the AST) has exactly the branches fence / space / table / fall-back; for every TOKEN_PATTERNS entry and every left context the fired-match language contains no empty match (regular-language emptiness, so `pos = match.end()` strictly increases pos), the space branch and the identifier branch advance by a non-empty text by construction and every other fall-back raises LexerError (R1/R0). Exception classes are decided on the AST: every raise statement in the closure of tokenize is LexerError and every raise in the parser module is ParserError (or a bare re-raise), bracket recursion is cut by _check_deep_nesting before each recursive descent (F1, F3); in the four tools every call of a reading/emitting/compiling stage lies inside a try whose handler catches Exception (or the two reader errors) and returns an envelope (F2). Built-in exceptions from expressions (index, key, conversion), the parser's loop progress, JSON-serialisability and the timing clause are not proved: they are explored by exhaustive short token sequences, random Unicode, mutated packaged documents, tool flag products and size scaling"
-LEVEL_NOTE = "scanner progress is unbounded (all inputs); parser progress and absence of built-in exceptions are bounded only; the timing clause is a wall-clock measurement with a 6x slack over linear growth and a serial re-measurement before reporting"
+LEVEL_NOTE = "scanner progress is unbounded (all inputs); parser loop progress is unbounded for 25 of 29 loops and modulo a callee assumption for the 4 structural ones; only the listed exception sources (explicit raises, library-call table) are under the escape contract, implicit built-in exceptions are bounded only; the timing clause is a wall-clock measurement with a 6x slack over linear growth and a serial re-measurement before reporting"
 TECHNIQUE = "progress (variant) contract on the real scanner decided by regular-language emptiness per table entry + AST skeleton; exception-escape (raises-clause) contract over the readers' call closure by fixpoint on the call graph + recursion-cycle contract; raise-site and guarded-call contracts decided on the AST; bounded sweeps (token sequences, random/mutated inputs, tool flag products, scaling)"
-EXPLANATION = "C20: R0/R1 scanner progress, F1 raise-site classes, F2 guarded stage calls in the tools, F3 recursion cut, F5 exception-escape sets, F6 recursion cycles, B5 hostile atoms, B1 token sequences, B2 random and mutated inputs, B3 tools x flags -> json.dumps, B4 scaling and depth probes."
-ASSUMPTIONS = ["CPython re semantics as modelled by verif.reglang (differentially tested)", "exceptions raised implicitly by expressions (IndexError, KeyError, AttributeError, TypeError) are outside the escape contract (bounded tier)", "the library-call table of props/escape.py (re.compile, int, float, chr, json.loads, yaml.safe_load, fromisoformat, strptime: what they raise on hostile input) is complete for the library calls the readers make", "calls through receivers of unknown type resolve to every method of that name (over-approximation); recursion through such calls is not tracked", "wall-clock timing on a shared 16-core machine"]
+EXPLANATION = "C20: R0/R1 scanner progress, F1 raise-site classes, F2 guarded stage calls in the tools, F3 recursion cut, F5 exception-escape sets, F6 recursion cycles, F7 parser loop progress (path analysis), B5 hostile atoms, B1 token sequences, B2 random and mutated inputs, B3 tools x flags -> json.dumps, B4 scaling and depth probes."
+ASSUMPTIONS = ["CPython re semantics as modelled by verif.reglang (differentially tested)", "exceptions raised implicitly by expressions (IndexError, KeyError, AttributeError, TypeError) are outside the escape contract (bounded tier)", "the library-call table of props/escape.py (re.compile, int, float, chr, json.loads, yaml.safe_load, fromisoformat, strptime: what they raise on hostile input) is complete for the library calls the readers make", "calls through receivers of unknown type resolve to every method of that name (over-approximation); recursion through such calls is not tracked", "wall-clock timing on a shared 16-core machine", "parser progress of the four structural main loops is modulo: a call of parse_value / parse_list_item / parse_section / parse_flow_expression consumes at least one token (bounded tier)", "the token stream ends with its only EOF token (lexer appends it last)"]
 TRUSTED_BASE = ["verif.reglang", "verif.frames"]
 LEXER, PARSER = "octave_mcp.core.lexer", "octave_mcp.core.parser"
 FUNCS = [f"{LEXER}:tokenize", f"{PARSER}:parse", f"{PARSER}:parse_with_warnings", f"{PARSER}:parse_meta_only"]
